@@ -1385,4 +1385,16 @@ theorem full_ln_end_tie_example :
 
 end FullLNEnd
 
+section SpeedNoSv
+open Reamber.Analysis
+
+/-- **scroll_speed** of a chart without an SV list (StepMania, BMS, O2Jam): no hypothesis on SVs at all - the
+SV arguments are not looked at -/
+theorem scroll_speed_perm_nosv {bpms bpms' : List Tp} (svs svs' : List Sv) (omin omax : Rat) (ov : Option Rat)
+    (ht : TiesEqual (fun p : Tp => p.time) bpms) (hp : bpms.Perm bpms') :
+    scrollSpeed false bpms svs omin omax ov = scrollSpeed false bpms' svs' omin omax ov := by
+  simp only [scrollSpeed, speedFrame, refBpm_perm omax ov ht hp, bpmFrame_perm omin omax ht hp, Bool.false_eq_true, if_false]
+
+end SpeedNoSv
+
 end Reamber.PermInv
